@@ -14,7 +14,7 @@ PROP = {
             "declaring the same kinds) exported P=6 (quick) / 12 (thorough) times, to stdout and to a file; distinct = FNV(workspace); "
             "non-trivial = >= 3 non-module items and >= 2 modules with a return value in the main root",
     "min_nontrivial": {"quick": 10, "thorough": 200},
-    "max_secs": {"quick": 60, "thorough": 1000},
+    "max_secs": {"quick": 600, "thorough": 1500},
     "require_clauses": ["a:byte-identity", "b:manifest-complete", "c:library-excluded", "c:std-excluded"],
     "assumptions": COMMON_ASSUME + [
         "a file without a `return` statement is not counted as a declared module (the exporter may list it or not)",
